@@ -666,3 +666,31 @@ Example C14_example_release :
   sc_case2 sc_code 4 SvNoFin SvLie 0 8 = ([], repeat true 8, 0) /\
   sc_case2 sc_not_on_ctx 4 SvFin SvLie 4 3 = (repeat false 4, repeat false 3, 4).
 Proof. exact sc_witness2. Qed.
+
+(* =====================================================================================================================
+   Round 9 — opening a stream with the peer's limit used up (Net/Streams.v, third part); idle time-outs of the upstreams
+   built by NewUpstream (Net/Deadline.v, table [ut_idle]).
+   ===================================================================================================================== *)
+
+(* the code does not wait for stream credit (and a wait given the CALLER's context would end at its deadline): opening
+   a stream never blocks beyond the caller's context *)
+Theorem C14_stream_open_bounded_by_ctx : forall md dl free_at,
+  md <> SoWaitTransport -> exists t, so_returns md dl free_at = Some t /\ t <= dl.
+Proof. exact so_open_bounded. Qed.
+Print Assumptions C14_stream_open_bounded_by_ctx.
+
+(* REFUTED for the variant that waits on the TRANSPORT's context: with the limit used up by unanswered exchanges the
+   open returns only when the peer frees a stream - later than any deadline + slack, or never *)
+Theorem C14_stream_open_bounded_by_ctx_refuted : forall dl slack,
+  so_within SoWaitTransport dl slack None = false /\
+  (forall f, dl + slack < f -> so_within SoWaitTransport dl slack (Some f) = false) /\
+  so_within SoNoWait dl slack None = true.
+Proof. exact so_wait_on_transport_unbounded. Qed.
+Print Assumptions C14_stream_open_bounded_by_ctx_refuted.
+
+(* every upstream built by NewUpstream has a positive idle time-out: an unset option means the scheme's default (udp
+   60 s, stream 10 s, https 30 s), never "no limit"; an explicit option wins (except on the pinned udp socket) *)
+Theorem C14_idle_timeouts_defaulted : forall s opt,
+  0 < ut_idle s opt /\ ut_idle s 0 = ut_default s /\ (s <> UtUdp -> 0 < opt -> ut_idle s opt = opt).
+Proof. exact ut_idle_defaulted. Qed.
+Print Assumptions C14_idle_timeouts_defaulted.
